@@ -71,6 +71,8 @@ class Run(object):
         func = unit.short if hasattr(unit, 'short') else '-'
         line = getattr(node, 'lineno', None) or getattr(unit, 'lineno', 0) or 0
         self.touch(unit if hasattr(unit, 'qual') else None)
+        if verdict is not None and not isinstance(verdict, bool):
+            raise TypeError('rule %s passed a non-boolean verdict %r for %r' % (rid, verdict, what))
         v = HOLDS if verdict is True else (VIOLATION if verdict is False else UNDECIDED)
         o = dict(rule=rid, where='%s:%d' % (file, line), function=func, obligation=what, verdict=v)
         if detail:
